@@ -1,12 +1,12 @@
 (* C26 / C27 — property theorems only.  Model: Ctx/Model.v (the transition system run in the correspondence
-   checks, Ctx/Run.v); lemmas: Ctx/Proofs.v, ProofsCut.v, ProofsRun.v, ProofsAligned.v.
+   checks, Ctx/Run.v); lemmas: Ctx/Proofs.v, ProofsLive.v, ProofsCut.v, ProofsRun.v, ProofsAligned.v.
 
    "For every thread schedule" = for every list of labels [sched] with [run cfg init sched = Some s]: each label is one
    atomic action of one thread (an input dispatch, one context taking one inbox message through its engine, one
    forward of one engine output, the coordinator putting one barrier into one inbox, the coordinator taking one
    ack), and [run] is defined exactly when every action of the list is enabled when its turn comes.
    [mode cfg = Block] is the code (forward with send().await); [Drop] is the try_send design. *)
-From VP Require Import Base.Tactics Ctx.Model Ctx.Run Ctx.Proofs Ctx.ProofsCut Ctx.ProofsRun Ctx.Aligned Ctx.ProofsAligned.
+From VP Require Import Base.Tactics Ctx.Model Ctx.Run Ctx.Proofs Ctx.ProofsLive Ctx.ProofsCut Ctx.ProofsRun Ctx.Aligned Ctx.ProofsAligned.
 
 (* ===== C26 ===== *)
 
@@ -40,6 +40,21 @@ Theorem C26_delivery_trysend_refuted : exists cfg sched s,
 Proof.
   destruct trysend_refuted as [sched [s [Hr Hn]]]. exists (w_cfg Drop), sched, s. repeat split; auto.
 Qed.
+
+(* The blocking forward cannot deadlock when the context graph is ranked (every cross-context forward goes to a
+   context with a larger index, i.e. the graph is acyclic up to renaming): whenever a context has a message or an
+   engine output waiting, some context can take its next inbox message or complete its next forward — with
+   tokio's waiter queues and promised slots as modelled by [Wait] / [wq] / [rs]. *)
+Theorem C26_no_deadlock_acyclic : forall cfg sched s c,
+  1 <= cap cfg -> ranked cfg -> run cfg init sched = Some s ->
+  c < n_ctx cfg -> has_work s c -> exists c', c' < n_ctx cfg /\ can_step cfg s c'.
+Proof.
+  intros cfg sched s c Hcap Hrk Hr Hc Hw.
+  apply (progress_from cfg s Hcap Hrk (run_outq_wf cfg sched init s (init_outq_wf cfg) Hr)
+           (run_waits_ok cfg sched init s (init_waits_ok cfg) Hr) (n_ctx cfg - c) c (Nat.le_refl _) Hc Hw).
+Qed.
+Example C26_no_deadlock_hyp : 1 <= cap (w_cfg Block) /\ ranked (w_cfg Block).
+Proof. split; [cbn; lia | apply rankedb_sound; reflexivity]. Qed.
 
 (* What the correspondence check replays on the implementation (polls, initiate, try_complete) is a schedule of this
    transition system. *)
